@@ -145,6 +145,8 @@ def explore(tier, seed):
                 chunks.append(("place", name, pos, first, n))
         chunks.append(("orders", name, tier))
         chunks.append(("thirty", name, tier))
+    for name in PATTERNS:
+        chunks.append(("hg", name, 4 if tier == "quick" else 6))
     for name in ("semver", "build", "legacy"):
         for twin in (False, True):
             for pos in ("below", "between"):
@@ -159,7 +161,7 @@ def project(name, cfgv, scope):
     return {"bumpver.toml": cfg.encode()}
 
 
-def run_state(st, name, pos, scope, ignore, placement, tags, order=None):
+def run_state(st, name, pos, scope, ignore, placement, tags, order=None, kind="git"):
     P = PATTERNS[name]
     cfgv = P["configs"][pos]
     served_all = [t for t, pl in zip(tags, placement) if pl != "absent"]
@@ -168,14 +170,14 @@ def run_state(st, name, pos, scope, ignore, placement, tags, order=None):
         served_all = [served_all[i] for i in order if i < len(served_all)]
     world.clear_dir(".")
     world.write_tree(project(name, cfgv, scope))
-    os.mkdir(".git")
+    os.mkdir("." + kind)
     want = expected_start(name, cfgv, scope, ignore, placement, tags)
     case = {"pattern": name, "config": cfgv, "scope": scope, "ignore_vcs_tag": ignore, "tags": {t: pl for t, pl in zip(tags, placement) if pl != "absent"},
             "order": list(order) if order else None}
     flags = ["--no-fetch"] + (["--ignore-vcs-tag"] if ignore else [])
     results = []
     for cmd in ("show", "update"):
-        fake = fakevcs.install(fakevcs.FakeVCS("git", tags_all=served_all, tags_merged=served_head, status=[]))
+        fake = fakevcs.install(fakevcs.FakeVCS(kind, tags_all=served_all, tags_merged=served_head, status=[]))
         try:
             if cmd == "show":
                 o = world.cli("show", *flags)
@@ -187,7 +189,7 @@ def run_state(st, name, pos, scope, ignore, placement, tags, order=None):
         st.transitions += 1
         results.append(o)
         kinds = sorted({classify_tag(name, t) for t in served_all})
-        ctx = f"{name}:{scope}" + (":ignore" if ignore else "")
+        ctx = f"{name}:{scope}" + (":ignore" if ignore else "") + (":hg" if kind == "hg" else "")
         if o.crashed:
             st.outcomes["violation"] += 1
             culprit = _culprit(name, served_all)
@@ -272,6 +274,12 @@ def run_chunk(chunk):
             perms = perms[::6]
         for order in perms:
             run_state(st, name, "below", "global", False, ("head",) * 3 + ("elsewhere",) * 3, tags, order=order)
+    elif chunk[0] == "hg":
+        _k, name, n = chunk
+        tags = [t for t in PATTERNS[name]["tags"][:n + 2] if t and " " not in t][:n]  # hg tag names: no blanks, not empty
+        for placement in itertools.product(PLACES, repeat=len(tags)):
+            for scope in SCOPES:
+                run_state(st, name, "below", scope, False, placement, tags, kind="hg")
     elif chunk[0] == "realgit":
         real_git(st, chunk[1], chunk[2], chunk[3], chunk[4])
     else:
